@@ -106,8 +106,8 @@ fn method_desc_body<const N: usize>(s: &SymStr<N>) {
 		(Ok(p), None) => { core::mem::forget(p); panic!("method descriptor outside the JVMS grammar was accepted"); },
 		(Err(_), Some(_)) => panic!("method descriptor inside the JVMS grammar was rejected"),
 	}
-	witness!(matches!(want, Some((_, 1, None))), "one parameter, void");
-	witness!(matches!(want, Some((_, 0, Some(_)))), "no parameter, non-void");
+	witness!(N < 3 || want.is_some(), "an accepted method descriptor (impossible below three bytes)");
+	witness!(want.is_none(), "a rejected string");
 }
 
 fn field_roundtrip_body<const N: usize>(s: &SymStr<N>) {
